@@ -470,12 +470,18 @@ def get_hint_pep_sign_ambiguous_or_none(hint: Hint) -> Optional[HintSign]:
         # types or callables to their identifying signs if that package is
         # recognized *OR* the empty dictionary otherwise (i.e., if the package
         # defining this hint is unrecognized).
+        #
+        # Note that most but *NOT* all types and callables define both the
+        # "__module__" and "__qualname__" dunder attributes. Notably, C-based
+        # method descriptors and method wrappers (e.g., "str.join",
+        # "int.__add__", "[].__len__") define *NO* "__module__".
         hint_basename_to_sign = HINT_MODULE_NAME_TO_HINT_BASENAME_TO_SIGN.get(
-            hint.__module__, FROZENDICT_EMPTY)
+            getattr(hint, '__module__', ''), FROZENDICT_EMPTY)
 
         # Sign identifying this hint if this hint is identifiable by its
         # basename *OR* "None" otherwise.
-        hint_sign = hint_basename_to_sign.get(hint.__qualname__)
+        hint_sign = hint_basename_to_sign.get(
+            getattr(hint, '__qualname__', ''))
         # print(f'hint: {hint}')
         # print(f'hint_sign [by self]: {hint_sign}')
         # print(f'lookup table: {HINT_MODULE_NAME_TO_HINT_BASENAME_TO_SIGN}')
